@@ -50,7 +50,7 @@ OrdOf(d, kind) ==
     [] kind = "rev" -> [i \in 1..d |-> d + 1 - i]
     [] kind = "rot" -> [i \in 1..d |-> (i % d) + 1]
 Ords(dn) == {OrdOf(dn[1], k) : k \in dn[6]}
-Ctx(dn, o) == [d |-> dn[1], n |-> dn[2], ord |-> o, lean |-> dn[5]]
+Ctx(dn, o) == [d |-> dn[1], n |-> dn[2], s |-> Pow(dn[1], dn[2]), ord |-> o, lean |-> dn[5]]
 Ctxs == UNION {{Ctx(dn, o) : o \in Ords(dn)} : dn \in DN}
 All(c) == 0..(c.n - 1)
 
@@ -191,7 +191,7 @@ RelabelTab(c) ==
   LET dg == DigTab(c)
   IN Ev([r \in Idx(c) |->
           ISumTo([k \in 0..(c.n - 1) |-> (c.ord[dg[r][k] + 1] - 1) * Pow(c.d, c.n - 1 - k)], c.n - 1)])
-IdCtx(c) == [d |-> c.d, n |-> c.n, ord |-> OrdOf(c.d, "id"), lean |-> c.lean]
+IdCtx(c) == [d |-> c.d, n |-> c.n, s |-> c.s, ord |-> OrdOf(c.d, "id"), lean |-> c.lean]
 
 RepLaws ==
   pt.m = "rep" /\ ValidRep(pt.c, pt.f) /\ Size(pt.c) <= MaxRep =>
@@ -201,7 +201,7 @@ RepLaws ==
        /\ \A m \in 1..Len(f) : OpMat(c, <<f[m]>>) = MatScale(c, f[m][1], TensorMat(c, f[m][2]))
        /\ LET Mid == OpMat(IdCtx(c), f)
               rl == RelabelTab(c)
-          IN \A rs \in Idx2(c) : M[rs] = Mid[<<rl[rs[1]], rl[rs[2]]>>]
+          IN \A x \in Idx2(c) : M[x] = Mid[(rl[x \div c.s] * c.s) + rl[x % c.s]]
 
 AlgLaws ==
   pt.m = "alg" =>
